@@ -108,6 +108,11 @@ type Exec struct {
 	asserted  map[string]int // label -> discharged count
 	fnEntered map[*ssa.Function]bool
 	observes  []string
+	obsTerms  map[string]*Term
+	obsOrder  []string
+	witness   *Witness
+	wantWitness bool
+	fixed     *modelFile
 	incon     []string // inconclusive notes (unknown verdicts)
 
 	// environment stubs
